@@ -19,7 +19,7 @@ TIERS = {
 }
 RULE = ("one seed -> one population of 0-70 gear (mostly <= 8; short address none / unique / duplicated) and one call of "
         "Commissioning(available_addresses in {None, empty, small, sparse, containing in-use addresses}, readdress, dry_run). "
-        "Each unit draws its random addresses from a plan-given stream: 0-6 adversarial rounds over a per-run address space "
+        "On a quarter of the seeds the units are found in arbitrary initialisation states (an earlier run was aborted), on 15 % the sequence is run a second time with the same arguments object. Each unit draws its random addresses from a plan-given stream: 0-6 adversarial rounds over a per-run address space "
         "that is tiny (1-8 values), pinned to 0 / 0xFFFFFF, or equal to another unit's next draw, followed by a unique final "
         "value (clashing units eventually differ). Unit faults: does not store / does not verify the programmed address. "
         "Non-trivial iff >= 2 units took part and (a clash forced a restart or addresses ran out or a unit fault fired or "
@@ -31,7 +31,7 @@ ASSUMPTIONS = [
 ]
 COMPONENTS = {"real": ["dali.sequences.Commissioning / _find_next", "dali.gear.general initialisation commands and responses"],
               "stub": ["bus and control gear incl. the random-address generator (sim/busim.py)", "driver"]}
-PROBES = ["stacked-tridonic", "stacked-hasseb", "clash-restart", "two-clash-rounds", "redraw-equals-withdrawn-unit", "addresses-exhausted", "address-0xffffff",
+PROBES = ["units-found-in-initialisation-state", "second-run-same-arguments", "stacked-tridonic", "stacked-hasseb", "clash-restart", "two-clash-rounds", "redraw-equals-withdrawn-unit", "addresses-exhausted", "address-0xffffff",
           "address-0", "preexisting-duplicates", "unit-does-not-store", "unit-does-not-verify", "dry-run", "readdress",
           "more-than-64-units", "empty-bus", "in-use-address-in-permitted-set"]
 
@@ -103,6 +103,15 @@ def gen_plan(seed, tier="quick"):
         r.shuffle(avail)
     plan = {"engine": "busim", "property": PROP, "seed": seed, "units": units, "available": avail,
             "readdress": r.random() < 0.4, "dry_run": r.random() < 0.15}
+    h = plans.rng_for(seed, PROP + "-history")
+    if h.random() < 0.25:
+        # the bus is not fresh: an earlier run was aborted within the gear's 15 min
+        # initialisation period - units are found in any initialisation state
+        for u in plan["units"]:
+            u["init0"] = h.choice(["disabled", "enabled", "withdrawn", "withdrawn"])
+    if h.random() < 0.15:
+        # the application runs it again later with the very same arguments object
+        plan["second_run"] = True
     if seed % 60 == 11 and n <= 6:
         # 'stacked' transport through the real hid drivers (they report collisions
         # as framing errors, which commissioning needs; the serial gateways do not)
@@ -117,6 +126,7 @@ def run_plan(plan):
         g = busim.Gear(short=u["short"], randoms=list(u["stream"]), name="G%d" % i)
         g.no_store = u["fault"] == "no-store"
         g.no_verify = u["fault"] == "no-verify"
+        g.init = {"enabled": busim.ENABLED, "withdrawn": busim.WITHDRAWN}.get(u.get("init0"), busim.DISABLED)
         units.append(g)
     # beyond its stream a unit keeps its final (unique) value
     for g in units:
@@ -129,7 +139,8 @@ def run_plan(plan):
     before = [g.short for g in units]
     readdress, dry = plan["readdress"], plan["dry_run"]
     avail = plan["available"]
-    gen = Commissioning(available_addresses=None if avail is None else list(avail), readdress=readdress, dry_run=dry)
+    avail_obj = None if avail is None else list(avail)        # the caller's own list object
+    gen = Commissioning(available_addresses=avail_obj, readdress=readdress, dry_run=dry)
     transport = plan.get("transport")
     if transport:
         sr, rr_ = drvsim.run_stacked(transport, plan["seed"], units, lambda: gen)
@@ -203,6 +214,22 @@ def run_plan(plan):
                     V("wrong-number-of-units-addressed", "%d participants, %d free permitted addresses: %d units "
                       "addressed, expected %d (after %s)" % (len(participants), len(free), len(got), want,
                                                              [after[i] for i in participants][:12]), site=mode)
+    if plan.get("second_run") and sr.status == "return" and not dry and not faulty and not transport and not vs:
+        # same arguments object again, re-addressing everything: what the caller
+        # passed as permitted set is still what the caller means
+        probes["second-run-same-arguments"] = 1
+        sr2 = busim.run_sequence(Commissioning(available_addresses=avail_obj, readdress=True), bus, cap=cap, log=log)
+        after2 = [g.short for g in units]
+        got2 = [a for a in after2 if a is not None]
+        if sr2.status != "return":
+            V("second-run-failed", "%s %r" % (sr2.status, sr2.exc), site=mode)
+        elif [a for a in got2 if a not in permitted] or len(set(got2)) != len(got2) \
+                or len(got2) != min(n, len(permitted)):
+            V("second-run-wrong-addresses", "second run with the same arguments object (permitted %s) left the units "
+              "with %s; expected %d distinct permitted addresses" % (
+                  sorted(permitted)[:12], after2[:12], min(n, len(permitted))), site=mode)
+    if any(u.get("init0") not in (None, "disabled") for u in plan["units"]):
+        probes["units-found-in-initialisation-state"] = 1
     if transport:
         probes["stacked-" + transport] = 1
     if nclash >= 1:
@@ -269,6 +296,15 @@ def run_seed(seed, tier):
 
 
 def shrink(plan):
+    if plan.get("second_run"):
+        p = copy.deepcopy(plan)
+        del p["second_run"]
+        yield p
+    if any(u.get("init0") for u in plan["units"]):
+        p = copy.deepcopy(plan)
+        for u in p["units"]:
+            u.pop("init0", None)
+        yield p
     if plan.get("transport"):
         p = copy.deepcopy(plan)
         del p["transport"]
